@@ -47,7 +47,6 @@ func VerifC15_ReclaimNoPingPong() {
 	mult := float64(vr.Choose("multiplier", 2) + 1)
 	first, second := c15PingPong(mult)
 	vr.Cover(first, "C15.first-reclaim-can-be-accepted")
-	vr.Cover(first && r > v, "C15.first-reclaim-can-take-less-than-it-needs")
 	vr.Observe("first", first)
 	vr.Observe("second", second)
 	vr.Assert(!(first && second), "C15.reclaim-never-accepted-both-ways")
